@@ -907,6 +907,8 @@ def build_streams(chk, names, sizes):
         if m != n:
             lines.append(f'charset search {hexchars(m)}'); outs.append(impl_search(m))
     fam['names'] = (lines, outs)
+    # the twin: the same lines through the functions REGENERATED from lib/encodings.py (Generated.EncodingsFn; ops g<op>)
+    fam['names-generated'] = ([l.replace('charset ', 'charset g', 1) for l in lines], list(outs))
     # ---- the registry: the model of `codecs.lookup(name).name` (C normalisation, alias table, encodings.<module>, the tool's search
     # function) against the running interpreter, on the name pool and on punctuation / case / dot variants of it
     lines, outs = [], []
@@ -949,15 +951,20 @@ def build_streams(chk, names, sizes):
     fam['charmap'] = (lines, outs)
     # ---- the binding under a scripted iconv
     lines, outs = [], []
+    glines = []        # the twin stream: the same inputs through decode / encode as REGENERATED from lib/iconv.py (Generated.IconvDl)
     for n, rounds in G.iconv_scripts(rng, sizes['scripts'], decode=True):
         data = bytes(rng.randrange(256) if rng.random() < 0.6 else rng.randrange(0x20, 0x7f) for _ in range(n))
         lines.append(f'charset decloop {hexbytes(data)} 60 {script_text(rounds)}'); outs.append(impl_decloop(data, rounds)[0])
+        glines.append(f'charset gdecloop {hexbytes(data)} 60 {script_text(rounds)}')
     for n, rounds in G.iconv_scripts(rng, sizes['scripts'], decode=False):
         text = ''.join(rng.choice('ab€ж中\U0001f600') for _ in range(n))
         lines.append(f'charset encloop {n} 60 {script_text(rounds)}'); outs.append(impl_encloop(text, rounds)[0])
+        glines.append(f'charset gencloop {hexchars(text)} 60 {script_text(rounds)}')
     fam['loop-scripted'] = (lines, outs)
+    fam['loop-scripted-generated'] = (glines, list(outs))
     # ---- the binding under the real iconv; the model runs the rounds a contract-abiding iconv would produce
     lines, outs = [], []
+    glines = []
     R = ref()
     if R.ok:
         for enc in REAL_LOOP_ENCODINGS:
@@ -976,6 +983,7 @@ def build_streams(chk, names, sizes):
                 rounds = [tuple(r) for r in sess.recorded if r[0] is not None or r[1] is not None]
                 rounds = [(r[0] if r[0] is not None else 0,) + r[1:] for r in rounds]
                 lines.append(f'charset decloop {hexbytes(b)} 60 {script_text(rounds)}'); outs.append(out)
+                glines.append(f'charset gdecloop {hexbytes(b)} 60 {script_text(rounds)}')
             for t in rng.sample(G.texts(rng, 'abcжяაბ中文한ạ€é', sizes['real_loop']), min(sizes['real_loop'], 300)):
                 if not t:
                     continue
@@ -987,7 +995,9 @@ def build_streams(chk, names, sizes):
                 rounds = [tuple(r) for r in sess.recorded if r[0] is not None or r[1] is not None]
                 rounds = [(r[0] if r[0] is not None else 0,) + r[1:] for r in rounds]
                 lines.append(f'charset encloop {len(t)} 60 {script_text(rounds)}'); outs.append(out)
+                glines.append(f'charset gencloop {hexchars(t)} 60 {script_text(rounds)}')
     fam['loop-real'] = (lines, outs)
+    fam['loop-real-generated'] = (glines, list(outs))
     # ---- encodings.decode, the decode of every loader
     lines, outs = [], []
     seen_codecs = {}
@@ -999,6 +1009,7 @@ def build_streams(chk, names, sizes):
         for data in LOADER_CONTENTS + [d for cc, d in CORPUS_BYTES if cc == 'LOADER']:
             lines.append(f'charset loader {len(data)} {raw_decode(data, n)}'); outs.append(impl_loader(data, n))
     fam['loader'] = (lines, outs)
+    fam['loader-generated'] = ([l.replace('charset ', 'charset g', 1) for l in lines], list(outs))
     # ---- EUC-TW: the structural model against the tool's codec; the CNS tables are asked of iconv unit by unit
     lines, outs = [], []
     if R.ok and R.available('UTF-32LE', 'EUC-TW'):
@@ -1133,6 +1144,9 @@ def build_streams(chk, names, sizes):
         lines.append(f'charset unrep {joined.replace("u", "e")} {per.replace("u", "e")} {",".join(hexchars(c) for c in chars)}')
         outs.append(impl_unrep(chars, joined, per))
     fam['characters'] = (lines, outs)
+    # the twin of the `unrep` lines: Language.get_unrepresentable_characters as REGENERATED from lib/ling.py (Generated.LingFn; op gunrep)
+    gl = [(l.replace('charset unrep ', 'charset gunrep ', 1), o) for l, o in zip(lines, outs) if l.startswith('charset unrep ')]
+    fam['characters-generated'] = ([l for l, _ in gl], [o for _, o in gl])
     # ---- the charset fragment of check_headers
     lines, outs = [], []
     langs = sorted({l + ('@' + m if m else '') for l, m, _ in sects})
@@ -1158,11 +1172,13 @@ def build_streams(chk, names, sizes):
     fam['check'] = (lines, outs)
     return fam
 
-def run_streams(chk, fam):
+def run_streams(chk, fam, generated_ok=True):
     dis = {}
     for name, (lines, outs) in fam.items():
         if not lines:
             continue
+        if name.endswith('-generated') and not generated_ok:
+            continue          # the regenerated definitions did not build: the tie is already in chk.broken
         d, model = chk.stream('charset-' + name, lines, outs)
         dis[name] = [(lines[i], outs[i], model[i]) for i in d]
     return dis
